@@ -237,6 +237,9 @@ func init() {
 		}
 		defer os.RemoveAll(dir)
 
+		// ------------------------------------------------------------ the file watcher in the path (real deployments)
+		rlWatched(c, dir)
+
 		// ------------------------------------------------------------ sequential differential
 		for _, kind := range []string{"htpasswd", "usermap"} {
 			pw := 3
@@ -514,7 +517,96 @@ func init() {
 			}
 		}
 		wgAll.Wait()
-		c.close([]string{"seq:htpasswd", "seq:usermap", "seq:good-version", "seq:malformed-version", "conc:htpasswd", "conc:usermap",
+		c.close([]string{"watch:order", "watch:symlink-rotation", "seq:htpasswd", "seq:usermap", "seq:good-version", "seq:malformed-version", "conc:htpasswd", "conc:usermap",
 			"conc:reload", "conc:malformed-reload", "conc:validations", "conc:window-mattered", "conc:reloaders-2"})
 	})
+}
+
+// rlWatched: reloads as deployments get them — triggered by the file watcher, not called by the harness.
+//
+//   order     a LARGE version is written and shortly afterwards a small one that revokes an address: once every triggered
+//             reload has completed, validations reflect the version ON DISK (reloads are applied in file order; a slow reload
+//             of a superseded version must not be the one that stays in force)
+//   symlinks  the file is mounted the way Kubernetes mounts a Secret / ConfigMap (file -> ..data/file, ..data -> ..v1) and
+//             rotated by re-pointing ..data: through the whole proxy (options validation, NewOAuthProxy) the rotated
+//             contents come into force
+func rlWatched(c *suiteCtx, dir string) {
+	// ---- order
+	{
+		path := filepath.Join(dir, "watched-emails.txt")
+		os.WriteFile(path, []byte("seed@example.com\n"), 0o600)
+		done := make(chan bool, 1)
+		validator := newValidatorImpl(nil, path, done, func() {})
+		if !validator("seed@example.com") {
+			c.violation("HARNESS", "watched e-mails file: initial contents not loaded", nil)
+		} else {
+			var sb strings.Builder
+			sb.WriteString("revoked@example.com\n")
+			for i := 0; i < 400000; i++ {
+				fmt.Fprintf(&sb, "user%07d@bulk.example.com\n", i)
+			}
+			os.WriteFile(path, []byte(sb.String()), 0o600)
+			time.Sleep(30 * time.Millisecond)
+			os.WriteFile(path, []byte("kept@example.com\nfinal-marker@example.com\n"), 0o600)
+			deadline := time.Now().Add(30 * time.Second)
+			seen := false
+			for time.Now().Before(deadline) {
+				if validator("final-marker@example.com") {
+					seen = true
+					break
+				}
+				time.Sleep(5 * time.Millisecond)
+			}
+			time.Sleep(3 * time.Second) // every reload that was triggered runs to completion
+			c.casen("watch|order", "")
+			c.count("watch:order")
+			if !seen {
+				c.violation("C20", "the last version written to the authenticated-emails file never came into force (30 s)", nil)
+			} else if validator("revoked@example.com") || validator("user0000001@bulk.example.com") || !validator("kept@example.com") || !validator("final-marker@example.com") {
+				c.violation("C20", "after all reloads completed the validator answers by a SUPERSEDED version of the file, not by the one on disk (a large version was written, then a small one revoking an address): reloads were not applied in file order",
+					map[string]interface{}{"revoked_still_accepted": validator("revoked@example.com"), "superseded_bulk_entry_accepted": validator("user0000001@bulk.example.com"),
+						"kept_accepted": validator("kept@example.com"), "versions": "seed -> 400001 lines -> 2 lines (30 ms apart)"})
+			}
+		}
+		done <- true
+	}
+	// ---- symlinks
+	{
+		mount := filepath.Join(dir, "mounted")
+		os.MkdirAll(filepath.Join(mount, "..v1"), 0o700)
+		os.WriteFile(filepath.Join(mount, "..v1", "emails"), []byte("alice@example.com\nbob@example.com\n"), 0o600)
+		os.Symlink("..v1", filepath.Join(mount, "..data"))
+		os.Symlink(filepath.Join("..data", "emails"), filepath.Join(mount, "emails"))
+		e, err := newEnv(c, proxyCfg{EmailsFile: filepath.Join(mount, "emails"), InjectRequest: defaultInject()})
+		if err != nil {
+			c.violation("HARNESS", "env (symlinked e-mails file): "+err.Error(), nil)
+			return
+		}
+		defer e.close()
+		cookie := map[string]string{}
+		for _, n := range []string{"alice", "bob", "carol"} {
+			cookie[n] = e.issueSessionCookie(e.sessionFor(idpUser{Sub: "u-" + n, Email: n + "@example.com", EmailVerified: true}, time.Minute))
+		}
+		served := func(n string) bool { return len(e.do(reqSpec{Target: "/app/x", Cookie: cookie[n]}).Hits) > 0 }
+		if !served("alice") || !served("bob") || served("carol") {
+			c.violation("HARNESS", "symlinked e-mails file: initial contents not in force", map[string]bool{"alice": served("alice"), "bob": served("bob"), "carol": served("carol")})
+			return
+		}
+		// rotate: bob removed, carol added
+		os.MkdirAll(filepath.Join(mount, "..v2"), 0o700)
+		os.WriteFile(filepath.Join(mount, "..v2", "emails"), []byte("alice@example.com\ncarol@example.com\n"), 0o600)
+		os.Symlink("..v2", filepath.Join(mount, "..data_tmp"))
+		os.Rename(filepath.Join(mount, "..data_tmp"), filepath.Join(mount, "..data"))
+		os.RemoveAll(filepath.Join(mount, "..v1"))
+		deadline := time.Now().Add(15 * time.Second)
+		for time.Now().Before(deadline) && !served("carol") {
+			time.Sleep(50 * time.Millisecond)
+		}
+		c.casen("watch|symlinks", "")
+		c.count("watch:symlink-rotation")
+		if !served("carol") || served("bob") || !served("alice") {
+			c.violation("C20", "the authenticated-emails file is mounted through symlinks (Kubernetes Secret / ConfigMap layout) and was rotated by re-pointing ..data: 15 s later validations still answer by the old contents (the reload never happens)",
+				map[string]interface{}{"added_address_accepted": served("carol"), "removed_address_still_accepted": served("bob"), "kept_address_accepted": served("alice")})
+		}
+	}
 }
